@@ -380,14 +380,15 @@ func (gen *generator) gepInstType(elemType, src types.Type, indices []ast.TypeVa
 			idx = gen.getIndex(indexVal)
 		} else {
 			idx = gep.Index{HasVal: false}
-			// Check if index is of vector type.
-			indexType, err := gen.irType(index.Typ())
-			if err != nil {
-				return nil, errors.WithStack(err)
-			}
-			if indexType, ok := indexType.(*types.VectorType); ok {
-				idx.VectorLen = indexType.Len
-			}
+		}
+		// Check if index is of vector type.
+		indexType, err := gen.irType(index.Typ())
+		if err != nil {
+			return nil, errors.WithStack(err)
+		}
+		if indexType, ok := indexType.(*types.VectorType); ok {
+			idx.VectorLen = indexType.Len
+			idx.Scalable = indexType.Scalable
 		}
 		idxs = append(idxs, idx)
 	}
@@ -455,9 +456,12 @@ func (gen *generator) getIndex(index ast.Constant) gep.Index {
 					}
 				}
 			default:
-				// TODO: remove debug output.
-				panic(fmt.Errorf("support for gep index vector element type %T not yet implemented", elem))
-				//return gep.Index{HasVal: false}
+				// An element that is not an integer literal (undef, poison, constant
+				// expression): the index vector has no concrete value.
+				return gep.Index{
+					HasVal:    false,
+					VectorLen: uint64(len(elems)),
+				}
 			}
 		}
 		return gep.Index{
@@ -472,9 +476,8 @@ func (gen *generator) getIndex(index ast.Constant) gep.Index {
 	case *ast.PoisonConst:
 		return gep.Index{HasVal: false}
 	default:
-		// TODO: add support for more constant expressions.
-		// TODO: remove debug output.
-		panic(fmt.Errorf("support for gep index type %T not yet implemented", index))
-		//return gep.Index{HasVal: false}
+		// Any other constant expression: no concrete value (as in the getIndex
+		// of ir and ir/constant).
+		return gep.Index{HasVal: false}
 	}
 }
